@@ -1,14 +1,18 @@
 #!/bin/bash
-# tools/thorough_all.sh [ids...]: every check's thorough tier, one after the other; one summary line each in thorough_all.out
+# tools/thorough_all.sh [-j N] [ids...]: every check's thorough tier (N at a time, default 1); one summary line each in thorough_all.out
 cd "$(dirname "$0")/.."
+J=1
+if [ "$1" = "-j" ]; then J=$2; shift 2; fi
 (cd lean && lake build >/dev/null 2>&1)
 : > thorough_all.out
 IDS="$@"
 [ -z "$IDS" ] && IDS=$(python3 -c "import json;print(' '.join(c['property_id'] for c in json.load(open('MANIFEST.json'))['checks']))")
-for c in $IDS; do
-  s=$(date +%s)
-  timeout 5400 ./check $c --tier thorough > /tmp/thorough_all.$$.log 2>&1; rc=$?
-  echo "$c rc=$rc $(( $(date +%s) - s ))s $(grep -E 'VIOLATION' /tmp/thorough_all.$$.log | head -1 | cut -c1-100) | $(grep -E 'thorough:' /tmp/thorough_all.$$.log | cut -c1-170)" >> thorough_all.out
-done
-rm -f /tmp/thorough_all.$$.log
+one() {
+  c=$1; s=$(date +%s); log=$(mktemp)
+  timeout 5400 ./check $c --tier thorough > $log 2>&1; rc=$?
+  echo "$c rc=$rc $(( $(date +%s) - s ))s $(grep -E 'VIOLATION' $log | head -1 | cut -c1-100) | $(grep -E 'thorough:' $log | cut -c1-170)" >> thorough_all.out
+  rm -f $log
+}
+export -f one
+echo $IDS | tr ' ' '\n' | xargs -P $J -I{} bash -c 'one {}'
 cat thorough_all.out
